@@ -649,7 +649,11 @@ def path_class(path: tuple) -> str:
         else:
             out.append(str(p))
         prev = p
-    return '.'.join(out)
+    # one cause, one key: nested visgroups and solids of the world / of entities share their field classes
+    dedup = [x for i, x in enumerate(out) if not (x == 'children' and i and out[i - 1] == 'children')]
+    if len(dedup) > 1 and dedup[0] in ('world', 'entities') and dedup[1] == 'solids':
+        dedup = dedup[1:]
+    return '.'.join(dedup)
 
 
 # ------------------------------------------------------------------------------------------------ text oracle
@@ -663,6 +667,11 @@ def parse_text(text: str, opts: dict):
     return VMF.parse(Keyvalues.parse(text), preserve_ids=opts.get('preserve_ids', False))
 
 
+_BLOCK_WORDS = {'{', '}', '<eof>', 'versioninfo', 'visgroups', 'visgroup', 'viewsettings', 'views', 'v0', 'v1', 'v2', 'v3', 'world',
+                'entity', 'hidden', 'solid', 'side', 'editor', 'group', 'connections', 'dispinfo', 'normals', 'distances', 'offsets',
+                'offset_normals', 'alphas', 'triangle_tags', 'allowed_verts', 'multiblend', 'alphablend', 'multiblend_color_0',
+                'multiblend_color_1', 'multiblend_color_2', 'multiblend_color_3', 'cameras', 'camera', 'cordons', 'cordon', 'box',
+                'quickhide', 'point_data'}
 _LINE = re.compile(r'^\s*"((?:[^"\\]|\\.)*)" "')
 
 
@@ -696,8 +705,10 @@ def text_diff_class(t1: str, t2: str) -> tuple[str, dict]:
             k = re.sub(r'\d+', 'N', k)
             return k if re.fullmatch(r'[A-Za-z_N]+', k) else '<key>'
         s = line.strip()
-        return s if re.fullmatch(r'[A-Za-z_0-9{}]+', s) else '<text>'
-    blocks = '/'.join(re.sub(r'\d+', 'N', x) if re.fullmatch(r'[A-Za-z_0-9]+', x) else '<blk>' for x in stack)
+        return s if s in _BLOCK_WORDS else '<text>'
+    # the class names the innermost two blocks; 'hidden' wrappers are dropped so that one cause gives one key
+    blocks = '/'.join([re.sub(r'\d+', 'N', x) if x in _BLOCK_WORDS or re.fullmatch(r'(row|v|multiblend_color_)\d+', x) else '<blk>'
+                       for x in stack if x != 'hidden'][-2:])
     ka, kb = keyof(a), keyof(b)
     cls = f'{blocks}:{ka}' if ka == kb else f'{blocks}:{ka}|{kb}'
     return cls, {'line': i + 1, 'first': a[:300], 'second': b[:300]}
@@ -740,6 +751,8 @@ def renumber(text: str) -> str:
 
 # ------------------------------------------------------------------------------------------------ the oracle
 def err_class(e: BaseException) -> str:
+    if type(e).__name__ in ('KeyValError', 'TokenSyntaxError'):
+        return type(e).__name__ + ':exported text is not valid keyvalues syntax'
     msg = str(e)
     msg = re.sub(r'"[^"]*"', '"…"', msg)
     msg = re.sub(r"'[^']*'", "'…'", msg)
